@@ -43,12 +43,12 @@ impl EventGen for SvgElement {
             "for" => ForElement(self.clone()).generate_events(context),
             "g" | "symbol" => GroupElement(self.clone()).generate_events(context),
             _ => {
-                if let Some((start, end)) = self.event_range {
-                    if start != end {
-                        return Container(self.clone()).generate_events(context);
-                    }
+                let has_content = matches!(self.event_range, Some((start, end)) if start != end);
+                if has_content {
+                    Container(self.clone()).generate_events(context)
+                } else {
+                    OtherElement(self.clone()).generate_events(context)
                 }
-                OtherElement(self.clone()).generate_events(context)
             }
         };
         // Ideally would have a single 'if bbox, set prev_element' here,
